@@ -10,9 +10,7 @@ from checks.common import conclude
 
 MODULE = "Nice.Props.C10"
 THEOREMS = [f"Nice.Props.C10.{t}" for t in (
-    "C10_wrong_conv_noop", "C10_short_packet_noop", "C10_long_packet_noop",
-    "C10_parse_options_no_fault", "C10_swnd_scale_le_14", "C10_shift_no_fault",
-    "C10_fifo_ok_preserved", "C10_rbuf_bounded", "C10_inv_preserved_partial")]
+    "C10_wrong_conv_noop", "C10_short_packet_noop", "C10_long_packet_noop", "C10_parse_options_no_fault", "C10_shift_no_fault", "C10_swnd_scale_le_14", "C10_fifo_ok_preserved", "C10_rbuf_bounded", "C10_inv_preserved_partial")]
 TRUSTED = [
     "Lean 4 kernel; axioms allowed: propext, Classical.choice, Quot.sound (audited by #print axioms on every run)",
     "hand-written model Nice/Model/PTcp.lean of agent/pseudotcp.c, tied by the ptcp_drv differential stream: every "
@@ -922,8 +920,9 @@ def run(tier, seed):
             L = gen_parallel(exe, [f"C10/l/{base + i}" for i in range(nl)],
                              lambda live, rng: legit_session(live, rng, steps=rng.choice([80, 160])))
             chk.note(f"generated {len(H)} hostile + {len(L)} legitimate sessions on the real code in {time.time() - t0:.1f}s")
-            corpus = run_corpus(exe, load_corpus("C10"))
+            corpus = run_corpus_scripts(exe, load_corpus("C10"), seed)
             allS = [s for _, s in corpus] + H + L
+            known_seen = {}
             for S in allS:
                 c = crashed(S)
                 why = None if c else oracle_c10(S)
@@ -931,9 +930,14 @@ def run(tier, seed):
                     rec = c or {"session": S.ops, "why": why}
                     k = known_match("C10", rec["why"] + " " + rec.get("stderr", ""))
                     if k:
-                        chk.known(k.get("text", k.get("id", "")))
+                        kid = k.get("id", k.get("text", ""))
+                        if kid not in known_seen:
+                            chk.known(k.get("text", kid))
+                        known_seen[kid] = known_seen.get(kid, 0) + 1
                     else:
                         ofail.append(rec)
+            if known_seen:
+                chk.cov["known_finding_hits"] = known_seen
             sessions = [S.ops for S in allS if not S.live.dead]
             if st["proof"] or os.path.exists(vlib.model_exe()):
                 diverged, total = vlib.diff_sessions(exe, sessions)
